@@ -284,7 +284,7 @@ fn build_type(
     let (packed, alignment) = if *packed {
         (quote! { , packed }, quote! {})
     } else {
-        let alignment: syn::Index = alignment.into();
+        let alignment = proc_macro2::Literal::usize_unsuffixed(alignment);
         (quote! {}, quote! { , align(#alignment) })
     };
 
